@@ -382,6 +382,9 @@ pub struct Inst {
     /// the harness's own ledger of eligible latest IP votes (C17)
     pub votes4: HashMap<[u8; 32], SocketAddr>,
     pub votes6: HashMap<[u8; 32], SocketAddr>,
+    /// when each ledger vote was cast, and the configured life time of votes (None: longer than any case)
+    pub vote_times: HashMap<[u8; 32], std::time::Instant>,
+    pub vote_ttl: Option<Duration>,
     pub vote_min: usize,
 }
 
@@ -430,6 +433,10 @@ impl Inst {
         if !enr_update {
             cb.disable_enr_update();
         }
+        // local identities k…998 let IP votes live for 400 ms only
+        if seed % 1000 == 998 {
+            cb.vote_duration(Duration::from_millis(400));
+        }
         // local identities k…999 run with the IP-diversity limits of the routing table
         if seed % 1000 == 999 {
             cb.ip_limit();
@@ -467,6 +474,8 @@ impl Inst {
             prev: BTreeMap::new(),
             votes4: HashMap::new(),
             votes6: HashMap::new(),
+            vote_times: HashMap::new(),
+            vote_ttl: if seed % 1000 == 998 { Some(Duration::from_millis(400)) } else { None },
             vote_min: vote_min.max(2),
         })
     }
@@ -489,7 +498,14 @@ impl Inst {
     pub fn ledger_majority(&self, v6: bool) -> Option<SocketAddr> {
         let votes = if v6 { &self.votes6 } else { &self.votes4 };
         let mut counts: HashMap<SocketAddr, usize> = HashMap::new();
-        for v in votes.values() {
+        let now = std::time::Instant::now();
+        for (id, v) in votes.iter() {
+            // votes older than the configured life time no longer count
+            if let (Some(ttl), Some(t)) = (self.vote_ttl, self.vote_times.get(id)) {
+                if *t + ttl <= now {
+                    continue;
+                }
+            }
             *counts.entry(*v).or_insert(0) += 1;
         }
         let (best, n) = counts.iter().max_by_key(|(_, c)| **c).map(|(a, c)| (*a, *c))?;
@@ -1450,6 +1466,13 @@ impl Runner for ServiceRunner {
                 out.push(format!("!OP spermit {}", x));
                 out.push("ok".into());
             }
+            // real time passes
+            ["ssleep", _, ms] => {
+                let ms: u64 = ms.parse().unwrap_or(0).min(3000);
+                std::thread::sleep(Duration::from_millis(ms));
+                out.push(format!("!OP ssleep {}", x));
+                out.push("ok".into());
+            }
             // the application drops its event stream and subscribes again: events flow to the new one
             ["sevresub", _] => {
                 let rt = self.rt.as_ref().unwrap();
@@ -1701,8 +1724,10 @@ impl Runner for ServiceRunner {
                         if eligible {
                             stats.bump("s.c17.votes-counted");
                             if a.is_ipv6() {
+                                inst.vote_times.insert(from.node_id.raw(), std::time::Instant::now());
                                 inst.votes6.insert(from.node_id.raw(), a);
                             } else {
+                                inst.vote_times.insert(from.node_id.raw(), std::time::Instant::now());
                                 inst.votes4.insert(from.node_id.raw(), a);
                             }
                         } else if processed && inst.enr_update {
@@ -2598,8 +2623,53 @@ fn gen_c16(rng: &mut Rng, ops: &mut Vec<String>, stats: &mut Stats) {
     ops.push("stable A".into());
 }
 
+/// C17 with a real vote life time (400 ms): bursts of votes separated by long pauses.  Votes from
+/// before a pause no longer count afterwards.  (Monitors only: the service model has no clock.)
+fn gen_c17_expiry(rng: &mut Rng, ops: &mut Vec<String>, stats: &mut Stats) {
+    stats.bump("gen.c17.expiry");
+    let a = 998 + 1000 * rng.range(0, 30);
+    let vmin = *rng.pick(&[2u64, 3, 3]);
+    ops.push(format!("snew A k{} {} 4 0 ip4 all 16 16 1 {}", a, rng.range(1, 50), vmin));
+    let n = vmin + rng.range(2, 4);
+    for i in 0..n {
+        ops.push(format!("sest A k{}:1:4:0 = o", 400 + i));
+        if i + 1 < vmin || i >= vmin {
+            // (one vote short of the minimum before the pause, the rest after it)
+        }
+    }
+    let x = "203.0.113.9/30303";
+    let y = "198.51.100.3/9000";
+    // first burst: one vote short of the minimum
+    for _ in 0..vmin - 1 {
+        ops.push(format!("sresp A #p ok pong +0 {}", x));
+    }
+    ops.push("slocal A".into());
+    ops.push("ssleep A 700".into());
+    // second burst: again short of the minimum on its own; together with the expired ones it would reach it
+    let second = rng.range(1, vmin - 1).max(1);
+    for _ in 0..second {
+        ops.push(format!("sresp A #p ok pong +0 {}", x));
+    }
+    ops.push("slocal A".into());
+    if rng.chance(1, 2) {
+        // and a genuine majority at the end (all fresh)
+        ops.push("ssleep A 700".into());
+        for i in 0..vmin {
+            ops.push(format!("sest A k{}:1:4:0 = o", 450 + i));
+        }
+        for _ in 0..vmin {
+            ops.push(format!("sresp A #p ok pong +0 {}", y));
+        }
+        ops.push("slocal A".into());
+    }
+}
+
 pub fn gen_case(rng: &mut Rng, tier: &str, profile: &str, stats: &mut Stats) -> Vec<String> {
     let mut ops = Vec::new();
+    if profile == "C17expiry" {
+        gen_c17_expiry(rng, &mut ops, stats);
+        return ops;
+    }
     if profile == "C16" {
         gen_c16(rng, &mut ops, stats);
         return ops;
